@@ -156,3 +156,48 @@ def random_cases(seed, canary_path, canary_mod, n, per_payload=2):
             if k >= per_payload:
                 break
     return out
+
+
+def code_canary_cases(canary_path, canary_mod):
+    """a call expression - real code, not the content of a literal - placed where the package looks at values: next to folded arithmetic, in __all__ /
+    __slots__ / preserve-relevant assignments, %-formatting, f-string fields and specs, defaults, decorators, annotations, debug tests"""
+    call = "__import__('os').system('touch %s')" % canary_path
+    imp = "__import__('%s')" % canary_mod
+    out = []
+    for c in (call, imp):
+        for tag, src in [
+            ('all_concat', "__all__ = ['name_a'] + [%s]\nname_a = 1\n" % c),
+            ('all_augassign', "__all__ = ['name_a']\n__all__ += [%s]\nname_a = 1\n" % c),
+            ('all_call_element', "__all__ = ['name_a', str(%s)]\nname_a = 1\n" % c),
+            ('all_star', "__all__ = ['name_a', *[%s]]\nname_a = 1\n" % c),
+            ('slots', "class K:\n    __slots__ = ('a', str(%s))\n" % c),
+            ('percent_tuple', "x = '%%s %%s' %% (%s, 1)\n" % c),
+            ('percent_single', "x = 'value %%d' %% %s\n" % c),
+            ('str_mul', "x = 'ab' * %s\n" % c),
+            ('binop_left', "x = %s + 1 + 2\n" % c),
+            ('binop_right', "x = 1 + 2 + %s\n" % c),
+            ('binop_bool', "x = %s | False\ny = True & %s\n" % (c, c)),
+            ('unary', "x = -%s\ny = not %s\nz = ~%s\n" % (c, c, c)),
+            ('compare', "x = 1 < %s < 3\n" % c),
+            ('fstring_field', "x = f'{%s}'\n" % c.replace("'", '"')),
+            ('fstring_spec', "x = f'{1:{%s}}'\n" % c.replace("'", '"')),
+            ('fstring_debug', "x = f'{%s=}'\n" % c.replace("'", '"')),
+            ('default', "def f(a=%s, *, b=%s):\n    return a, b\n" % (c, c)),
+            ('decorator', "@(%s or (lambda f: f))\ndef f():\n    pass\n" % c),
+            ('annotation', "x: %s = 1\ndef f(a: %s) -> %s:\n    pass\n" % (c, c, c)),
+            ('debug_test', "if __debug__ and %s:\n    pass\nif __debug__ is %s:\n    pass\n" % (c, c)),
+            ('assert', "assert %s, %s\n" % (c, c)),
+            ('class_keyword', "class K(metaclass=%s):\n    pass\n" % c),
+            ('raise_builtin', "raise ValueError(%s)\n" % c),
+            ('return_none', "def f():\n    return None if %s else None\n" % c),
+            ('subscript', "x = [1, 2, 3][%s]\ny = {1: 2}[%s]\n" % (c, c)),
+            ('match_guard', "match 1:\n    case 1 if %s:\n        pass\n" % c),
+            ('literal_statement', "%s\n'doc'\n" % c),
+            ('docstring_neighbour', "'doc'\n%s\n" % c),
+        ]:
+            try:
+                compile(src, 's', 'exec')
+            except Exception:
+                continue
+            out.append({'shape': 'code_canary.' + tag, 'payload': 'code', 'src': src})
+    return out
